@@ -117,6 +117,13 @@ pub enum NewCfg {
     NotJson,
     /// new_with_params with the bundled key / graph (valid) or corrupted graph bytes
     WithParams(bool),
+    /// a non-temporary tree at a location of its own (each surface gets its own directory); through
+    /// `new` ({"tree_config": {...}}) or `new_with_params` (the bare tree configuration)
+    Persistent { with_params: bool },
+    /// "temporary": true on a path that already exists: refused by the configuration parser
+    TemporaryOnExistingPath { with_params: bool },
+    /// drop both instances and construct them again with the configuration used last
+    Reopen,
 }
 
 #[derive(Clone, Debug, Serialize, Deserialize)]
@@ -354,6 +361,44 @@ pub struct Pair {
     pub a: *mut RLN,
     pub b: Option<RLN>,
     pub depth: usize,
+    /// the configuration the current instances were constructed with (None = "{}")
+    pub last: Option<NewCfg>,
+}
+
+/// configuration text for one side; `wrapped` = the {"tree_config": ..} document `new` expects
+fn tree_cfg_text(cfg: &NewCfg, side: &std::path::Path, wrapped: bool) -> Vec<u8> {
+    let inner = match cfg {
+        NewCfg::Persistent { .. } => serde_json::json!({"path": side.join("persist").to_string_lossy(), "temporary": false}),
+        NewCfg::TemporaryOnExistingPath { .. } => {
+            let p = side.join("exists");
+            let _ = std::fs::create_dir_all(&p);
+            serde_json::json!({"path": p.to_string_lossy(), "temporary": true})
+        }
+        _ => serde_json::json!({}),
+    };
+    if wrapped {
+        serde_json::json!({"tree_config": inner}).to_string().into_bytes()
+    } else {
+        inner.to_string().into_bytes()
+    }
+}
+
+/// construct one instance on each surface from the same kind of configuration
+fn construct_both(cfg: &NewCfg, depth: usize, base: &std::path::Path) -> Result<(Result<RLN, String>, bool, *mut RLN), Panicked> {
+    let with_params = matches!(cfg, NewCfg::Persistent { with_params: true } | NewCfg::TemporaryOnExistingPath { with_params: true });
+    let (ta, tb) = (tree_cfg_text(cfg, &base.join("a"), !with_params), tree_cfg_text(cfg, &base.join("b"), !with_params));
+    let mut ctx: *mut RLN = std::ptr::null_mut();
+    if with_params {
+        let zkey = rln::circuit::ZKEY_BYTES.to_vec();
+        let graph = rln::circuit::graph_from_folder().to_vec();
+        let rb = guarded(|| RLN::new_with_params(depth, zkey.clone(), graph.clone(), Cursor::new(tb.clone())).map_err(|e| e.to_string()))?;
+        let flag = f::new_with_params(depth, &buf(&zkey), &buf(&graph), &buf(&ta), &mut ctx as *mut *mut RLN);
+        Ok((rb, flag, ctx))
+    } else {
+        let rb = rust_new(depth, &tb)?;
+        let (flag, c) = ffi_new(depth, &ta);
+        Ok((rb, flag, c))
+    }
 }
 
 impl Drop for Pair {
@@ -655,7 +700,7 @@ fn disarm_abort_guard(case: &Case) {
 // the lockstep interpreter
 // ---------------------------------------------------------------------------------------------
 
-fn run_case(case: &Case, o: &mut Outcome) {
+fn run_case(case: &Case, base: &std::path::Path, o: &mut Outcome) {
     let g = match gold() {
         Ok(g) => g,
         Err(e) => {
@@ -676,7 +721,7 @@ fn run_case(case: &Case, o: &mut Outcome) {
         vfail!(o, "ffi::new({depth}, {{}}) reported {flag} (context {:?}) although RLN::new succeeds", a);
         return;
     }
-    let mut pair = Pair { a, b: Some(b), depth };
+    let mut pair = Pair { a, b: Some(b), depth, last: None };
     let mut failed_then_ok = false;
     let mut had_failure = false;
     let mut seq_on_nonempty = false;
@@ -685,12 +730,78 @@ fn run_case(case: &Case, o: &mut Outcome) {
         o.label(format!("call/{k}"));
         let depth = pair.depth;
         // ---- constructors -------------------------------------------------------------------
-        if let Call::New(cfg) = c {
+        if let Call::New(cfg0) = c {
+            if matches!(cfg0, NewCfg::Persistent { .. } | NewCfg::TemporaryOnExistingPath { .. } | NewCfg::Reopen) {
+                let cfg = match cfg0 {
+                    NewCfg::Reopen => pair.last.clone().unwrap_or(NewCfg::Empty),
+                    other => other.clone(),
+                };
+                // the storage location is locked by the instance that owns it: drop the old pair first
+                if !pair.a.is_null() {
+                    unsafe { drop(Box::from_raw(pair.a)) };
+                    pair.a = std::ptr::null_mut();
+                }
+                pair.b = None;
+                let attempt = |cfg: &NewCfg| construct_both(cfg, depth, base);
+                let (rb, flag, ctx) = match attempt(&cfg) {
+                    Ok(x) => x,
+                    Err(_) => {
+                        o.exclude("rust-api-panicked/new");
+                        return;
+                    }
+                };
+                if flag != rb.is_ok() {
+                    vfail!(o, "step {step} constructor with {cfg:?}: FFI reported {flag}, Rust API returned {:?}", rb.as_ref().map(|_| ()));
+                    if !ctx.is_null() {
+                        unsafe { drop(Box::from_raw(ctx)) };
+                    }
+                    return;
+                }
+                match rb {
+                    Ok(r) => {
+                        if ctx.is_null() {
+                            vfail!(o, "step {step} constructor with {cfg:?}: success without a context pointer");
+                            return;
+                        }
+                        pair.a = ctx;
+                        pair.b = Some(r);
+                        pair.last = Some(cfg.clone());
+                        o.label(format!("constructed/{}", match cfg { NewCfg::Persistent { .. } => "persistent", _ => "default" }));
+                    }
+                    Err(_) => {
+                        had_failure = true;
+                        o.label("constructor-refused");
+                        // continue on default instances
+                        match construct_both(&NewCfg::Empty, depth, base) {
+                            Ok((Ok(r), true, c2)) if !c2.is_null() => {
+                                pair.a = c2;
+                                pair.b = Some(r);
+                                pair.last = None;
+                            }
+                            _ => {
+                                vfail!(o, "step {step}: cannot construct default instances after a refused configuration");
+                                return;
+                            }
+                        }
+                    }
+                }
+                // both surfaces must now show the same state (a reopened persistent tree included)
+                let ob = observe_rust(pair.b.as_mut().unwrap(), pair.depth, &[]);
+                let oa = observe_ffi(pair.a, pair.depth, &[]);
+                if oa != ob {
+                    vfail!(o, "step {step} after constructing with {cfg:?}: state read through the FFI differs from the Rust API's: ffi {oa:?} / rust {ob:?}");
+                    return;
+                }
+                o.evals += 1;
+                continue;
+            }
+            let cfg = cfg0;
             let (nd, text): (usize, Vec<u8>) = match cfg {
                 NewCfg::Empty => (depth, b"{}".to_vec()),
                 NewCfg::Garbage(b) => (depth, b.clone()),
                 NewCfg::NotJson => (depth, b"{\"tree_config\": ".to_vec()),
                 NewCfg::WithParams(_) => (depth, b"{}".to_vec()),
+                _ => unreachable!(),
             };
             if let NewCfg::WithParams(valid) = cfg {
                 let zkey = rln::circuit::ZKEY_BYTES.to_vec();
@@ -721,6 +832,7 @@ fn run_case(case: &Case, o: &mut Outcome) {
                     let old = std::mem::replace(&mut pair.a, ctx);
                     unsafe { drop(Box::from_raw(old)) };
                     pair.b = Some(r);
+                    pair.last = None;
                 } else if !ctx.is_null() {
                     vfail!(o, "step {step} new_with_params: failure but the context pointer was written");
                     return;
@@ -748,6 +860,7 @@ fn run_case(case: &Case, o: &mut Outcome) {
                         unsafe { drop(Box::from_raw(old)) };
                         pair.b = Some(r);
                         pair.depth = nd;
+                        pair.last = None;
                     }
                     Err(_) => {
                         had_failure = true;
@@ -1074,6 +1187,13 @@ fn util_call() -> BoxedStrategy<Call> {
         4 => (msgbuf(), rootsbuf()).prop_map(|(m, r)| Call::VerifyWithRoots(m, r)),
         4 => (msgbuf(), msgbuf()).prop_map(|(a, b)| Call::RecoverIdSecret(a, b)),
         1 => prop_oneof![4 => Just(NewCfg::Empty), 2 => proptest::collection::vec(any::<u8>(), 0..30).prop_map(NewCfg::Garbage), 1 => Just(NewCfg::NotJson)].prop_map(Call::New),
+        1 => prop_oneof![
+            6 => Just(NewCfg::Persistent { with_params: false }),
+            1 => Just(NewCfg::Persistent { with_params: true }),
+            2 => Just(NewCfg::TemporaryOnExistingPath { with_params: false }),
+            1 => Just(NewCfg::TemporaryOnExistingPath { with_params: true }),
+            8 => Just(NewCfg::Reopen),
+        ].prop_map(Call::New),
     ]
     .boxed()
 }
@@ -1094,7 +1214,7 @@ impl Property for C11 {
         "C11"
     }
     fn rule(&self) -> String {
-        "histories of up to 16 calls over the whole extern \"C\" surface (tree mutators incl. atomic / sequential batches and batch initialisation, getters, metadata, flush, set_tree, new / new_with_params, key generation seeded and unseeded, hash, poseidon_hash, verify / verify_rln_proof / verify_with_roots / recover_id_secret on golden, mutated, truncated and random messages, and — at depth 20 — set_leaf + generate_rln_proof / generate_rln_proof_with_witness / prove) with valid and malformed buffers; instance A only through rln::ffi, instance B only through rln::public::RLN, same arguments. \
+        "histories of up to 16 calls over the whole extern \"C\" surface (tree mutators incl. atomic / sequential batches and batch initialisation, getters, metadata, flush, set_tree, new / new_with_params incl. non-temporary trees at a location per surface, refused configurations, and drop + re-construction with the same configuration, key generation seeded and unseeded, hash, poseidon_hash, verify / verify_rln_proof / verify_with_roots / recover_id_secret on golden, mutated, truncated and random messages, and — at depth 20 — set_leaf + generate_rln_proof / generate_rln_proof_with_witness / prove) with valid and malformed buffers; instance A only through rln::ffi, instance B only through rln::public::RLN, same arguments. \
          Per call: flag == is_ok; output bytes equal (randomised outputs: same length, same public values, cross-verified); failed call leaves out-parameters untouched; afterwards root, leaf count, probed leaves, metadata and a membership proof read through the FFI equal those read through the Rust API. Calls for which the Rust API panics end the history and are counted under excluded_known (outside the quantifier). \
          non-trivial = history with a failing call followed by a succeeding one, or a sequential batch on a tree with leaves_set > 0; distinct by case content".into()
     }
@@ -1134,12 +1254,15 @@ impl Property for C11 {
         });
         prop_oneof![24 => small, 1 => big].boxed()
     }
-    fn check(&self, _ctx: &Ctx, case: &Case) -> Outcome {
+    fn check(&self, ctx: &Ctx, case: &Case) -> Outcome {
         let mut o = Outcome::new();
         o.label(format!("depth/{}", case.depth));
         arm_abort_guard(case);
         let t0 = std::time::Instant::now();
-        run_case(case, &mut o);
+        let base = ctx.tmpdir.join(format!("c11-{:016x}-{:?}", case_hash(case), std::thread::current().id()));
+        let _ = std::fs::remove_dir_all(&base);
+        run_case(case, &base, &mut o);
+        let _ = std::fs::remove_dir_all(&base);
         if std::env::var("VERIF_TIMING").is_ok() && t0.elapsed().as_millis() > 500 {
             eprintln!("TIMING {:?} depth {} calls {:?}", t0.elapsed(), case.depth, case.calls.iter().map(kind).collect::<Vec<_>>());
         }
